@@ -18,11 +18,12 @@ const S12D: Spec = Spec { sys: L_B, user: None, cats: CATS_DENSE, unk_mult: &[1,
 fn same_tokens(w1: &Worker, c1: &[char], w2: &Worker, c2: &[char], maxt: usize) {
     let (t1, t2) = (w1.verif_top_nodes(), w2.verif_top_nodes());
     assert!(t1.len() == t2.len(), "re-spacing changed the number of tokens");
-    // token i (BOS-first) is at len-1-i; walk from the back of both lists in lock step
+    // both lists are stored EOS-to-BOS and have the same length, so token i of one result and
+    // token i of the other sit at the same (concrete) index
     for back in 0..maxt {
         if back < t1.len() && back < t2.len() {
-            let (e1, n1) = &t1[t1.len() - 1 - back];
-            let (e2, n2) = &t2[t2.len() - 1 - back];
+            let (e1, n1) = &t1[back];
+            let (e2, n2) = &t2[back];
             assert!(n1.word_id == n2.word_id && n1.lex_type == n2.lex_type, "re-spacing changed a token's dictionary entry");
             assert!(n1.left_id == n2.left_id && n1.right_id == n2.right_id, "re-spacing changed connection ids");
             assert!(n1.min_cost == n2.min_cost, "re-spacing changed a total cost");
@@ -79,6 +80,8 @@ macro_rules! respace {
 respace!(c12_leading, S12, [A], "\u{1}", [SP, A], "\u{4}\u{1}", 2, 1);
 //@ c12_trailing {"desc":"adding a trailing space run changes nothing: \"a\" vs \"a<sp>\"","bounds":"N=1 vs N=2; dictionary S12","symbolic":"costs, ids, matrix","functions":["Tokenizer::build_lattice_inner","Lattice::insert_eos","Lattice::append_top_nodes"],"fs":2048,"unwind":7,"timeout":1200,"mem_gb":16}
 respace!(c12_trailing, S12, [A], "\u{1}", [A, SP], "\u{1}\u{4}", 2, 1);
+//@ c12_leading_unknown {"desc":"a leading space run before an unknown word: \"c\" vs \"<sp>c\" (surface must not swallow the spaces)","bounds":"N=1 vs N=2; dictionary S12","symbolic":"costs, ids, matrix","functions":["Tokenizer::add_lattice_edges","UnkHandler::gen_unk_words","Lattice::insert_node"],"fs":2048,"unwind":7,"timeout":1200,"mem_gb":16}
+respace!(c12_leading_unknown, S12, [C], "\u{3}", [SP, C], "\u{4}\u{3}", 2, 1);
 //@ c12_inner_1_vs_2 {"desc":"lengthening an inner space run changes nothing: \"a<sp>b\" vs \"a<sp><sp>b\" (the word after the gap connects to the word before it)","bounds":"N=3 vs N=4; dictionary S12","symbolic":"costs, ids, matrix","functions":["Tokenizer::build_lattice_inner","Sentence::compute_groupable","Lattice::insert_node","Lattice::append_top_nodes"],"fs":2048,"unwind":8,"timeout":2400,"mem_gb":24}
 respace!(c12_inner_1_vs_2, S12, [A, SP, B], "\u{1}\u{4}\u{2}", [A, SP, SP, B], "\u{1}\u{4}\u{4}\u{2}", 3, 2);
 //@ c12_trailing_2_vs_1 {"tier":"thorough","desc":"shortening a trailing run: \"b<sp><sp>\" vs \"b<sp>\" with dense unknown words","bounds":"N=3 vs N=2; dictionary S12D","symbolic":"costs, ids, matrix","functions":["Tokenizer::build_lattice_inner"],"fs":2048,"unwind":8,"timeout":2400,"mem_gb":24}
